@@ -164,7 +164,7 @@ def run(rep, tier, seed, replay=None):
         return
     for i in range(n):
         one_case(rep, cs, seed, i)
-    cs.run(shard=max(20, n // 10))
+    cs.run(shard=max(20, 300 // 10))  # shard size of the quick tier: thorough runs use more files, not longer ones
     # pooled moment tests (6-sigma thresholds: false-alarm probability below 1e-8)
     z = np.array(POOL["normal"])
     if z.size >= 200:
